@@ -91,6 +91,9 @@ def judge(ctx, res, tests, cfg, name, args):
                    if h and f < len(o["after"]) and o["after"][f]["size"] > 0 and (min(h) < o["after"][f]["hf"] or max(h) > o["after"][f]["hl"])]
             what = "%s: after %s (step %s) tip=%d; (file, nHeightFirst, nHeightLast, lowest stored, highest stored): %s" % (
                 CLAUSES[inv], json.dumps(t.get("action")), t.get("step"), o["tip"], bad[:4])
+            n_fileinfo = sum(1 for v in ctx.violations if v["key"].startswith("fileinfo:"))
+            if n_fileinfo >= 4:        # the same defect shows in every later observation: a few cases are enough
+                continue
             if ctx.violation("fileinfo:" + vflib.digest(bad[:1]), what, dict(adapter="prune", mode="replay", args=list(args), case=case, observation=dict(after=o["after"], heights=o["heights"]), clause=inv)):
                 n_viol += 1
             continue
